@@ -212,7 +212,8 @@ def n_leaves(e):
 
 CORPUS_V = [("x = 2 3", 5.0), ("x = 2 3 * 4", 14.0), ("x = 2 (3)", 5.0), ("x = 10 -4", 6.0), ("total = 1k 500", 1500.0), ("0 / 0", 0.0),
             ("(3 - 3) / (2 - 2)", 0.0), ("7 + (4 - 2 * 2) / 0 * 3", 7.0), ("x = 1 + 0 / (1 - 1)", 1.0), ("-0 / 0 + 2", 2.0),
-            ("y = (1) (2) 3", 6.0), ("5 / (2 - 2) + 1", 1.0)]
+            ("y = (1) (2) 3", 6.0), ("5 / (2 - 2) + 1", 1.0), ("12.30 + 1", 1231.0), ("2 * 1.05", 210.0), ("0,25 * 4", 1.0),
+            ("23.59 - 9", 2350.0), ("1,50 * 2", 3.0), ("2k + 3", 2003.0), ("1M - 1", 999999.0), ("x = 1k * 2", 2000.0), ("2k 3", 2003.0)]
 CORPUS = ["1 + 2 * 3", "(1+2)*3", "8 / 4 / 2 + 1", "2 * (3 + 4) * 5", "10 - 4 - 3", "1 / 0 + 5", "3-5", "2*3-5",
           "1 2 3", "2 * 3 4", "1k + 2", "x = 2 * (3 + 4)", "((1 + 2)) * 3", "1,5 * 2", "1.000 + 1",
           "- 5 + 2", "(- 5 + 1) * 2"]
@@ -255,7 +256,13 @@ def generate(rng, tier):
         if any(toks[i] == "/" and toks[i + 2] == "/" and is_num(toks[i - 1]) and is_num(toks[i + 1]) and is_num(toks[i + 3])
                for i in range(1, len(toks) - 3)):
             continue
-        cases.append(exec_case(text, kind=style, expect=bits(v), classes=sorted(cls)))
+        pre_ops = []
+        if rng.random() < 0.25:
+            # the same expression written in the other convention (decimal '.', thousands ',')
+            text = text.translate(str.maketrans(",.", ".,"))
+            pre_ops = [{"op": "set_dec", "v": "."}, {"op": "set_thou", "v": ","}]
+            style += "-dot"
+        cases.append(exec_case(text, pre=pre_ops, kind=style, expect=bits(v), classes=sorted(cls)))
     return cases
 
 
